@@ -116,6 +116,13 @@ func (s *AddrScenario) Setup(k *sim.Kernel) {
 					svc.Shutdown()
 				}
 				foreign.Close()
+			case "ended":
+				// Bind under a context that has ended already: error or success, and
+				// nothing stays bound behind the service's back
+				cctx, cancel := context.WithCancel(ctx)
+				cancel()
+				rec(i, "ended-bind", svc.Bind(cctx, st.Addr))
+				rec(i, "shutdown", svc.Shutdown())
 			case "bind":
 				err := svc.Bind(ctx, st.Addr)
 				rec(i, "bind", err)
@@ -242,7 +249,14 @@ func (s *AddrScenario) Check(k *sim.Kernel) []sim.Violation {
 			continue
 		}
 		res, have := o.m[first]
-		switch cl.kind {
+		kind := cl.kind
+		if st.Mode == "ended" {
+			kind = "either" // only the release clause below applies
+			if cl.kind == "refused" && len(bound) > 0 {
+				kind = "refused"
+			}
+		}
+		switch kind {
 		case "refused":
 			if len(bound) > 0 {
 				l := bound[0]
@@ -376,7 +390,7 @@ func genC19(seed uint64, tier string) Scenario {
 			// filesystem sockets belong to the real-kernel leg
 			a = "unix:@" + strings.TrimPrefix(a, "unix:")
 		}
-		s.Steps = append(s.Steps, AddrStep{Addr: a, Mode: g.Pick("bind", "bind", "serve", "listen", "held", "rebind")})
+		s.Steps = append(s.Steps, AddrStep{Addr: a, Mode: g.Pick("bind", "bind", "serve", "listen", "held", "rebind", "ended")})
 	}
 	return s
 }
